@@ -14,7 +14,7 @@ pub fn info() -> PropInfo {
     PropInfo {
         id: "C16",
         level: "exploration",
-        rule: "proptest in a build with the library's mock_salts feature (process-wide SALTS queue cleared and refilled at the top of every case; cases run sequentially inside each worker process): claims with the textual-hazard string class boosted (, : [ \" \\ runs of spaces, in values and nested names), full-range f64, non-BMP x strategy x salt queue (number of disclosures + 0..3 spare) x format x {HS256, EdDSA, ES256} x decoys. Oracle: queue shrinks by exactly one salt per disclosure and emitted salts are the queue prefix in order; two runs from equal queues give byte-identical disclosures, payloads (decoys off) and whole strings (HS256/EdDSA); C05 structure oracle (reconstruction == claims) and issue->present->verify == C01 view. Non-trivial: >= 1 disclosure. Distinct: hash of the case JSON.",
+        rule: "proptest in a build with the library's mock_salts feature (process-wide SALTS queue cleared and refilled at the top of every case; cases run sequentially inside each worker process): claims with the textual-hazard string class boosted (, : [ \" \\ runs of spaces, in values and nested names), full-range f64, non-BMP x strategy x salt queue (number of disclosures + 0..3 spare; empty / blank salts; repeated salts when the hidden claims have pairwise distinct (name, value) pairs) x format x {HS256, EdDSA, ES256} x decoys. Oracle: queue shrinks by exactly one salt per disclosure and emitted salts are the queue prefix in order; two runs from equal queues give byte-identical disclosures, payloads (decoys off) and whole strings (HS256/EdDSA); C05 structure oracle (reconstruction == claims) and issue->present->verify == C01 view. Non-trivial: >= 1 disclosure. Distinct: hash of the case JSON.",
         assumptions: &["byte equality with Python's json.dumps is not asserted (the property only demands that the spacing is harmless); the interop tool itself cannot be built offline"],
         needs_mock: true,
         rounds: 2,
@@ -45,6 +45,46 @@ pub fn strategy() -> BoxedStrategy<Case> {
                 if salts.len() > 1 && ch.get(2).map(|c| c % 2 == 0).unwrap_or(false) {
                     let j = (i + 1) % salts.len();
                     salts[j] = " ".to_string();
+                }
+            }
+            // repeated salts: the property quantifies over all queues that are long enough. Equal
+            // salts are harmless exactly when no two disclosures would otherwise be equal, i.e. when
+            // the hidden claims have pairwise distinct (name or none, value) pairs — only then
+            if salts.len() >= 2 && ch.get(3).map(|c| c % 4 == 0).unwrap_or(false) {
+                if let Ok(t) = mark(&issue.claims, &issue.strat) {
+                    let mut pairs: Vec<String> = t
+                        .hidden_paths()
+                        .iter()
+                        .map(|p| {
+                            let mut v = &issue.claims;
+                            for seg in p {
+                                v = match seg {
+                                    sdjwt_model::tree::Seg::K(k) => &v[k.as_str()],
+                                    sdjwt_model::tree::Seg::I(i) => &v[*i],
+                                };
+                            }
+                            let name = match p.last() {
+                                Some(sdjwt_model::tree::Seg::K(k)) => serde_json::to_string(k).unwrap(),
+                                _ => "-".to_string(),
+                            };
+                            format!("{} {}", name, sdjwt_model::exact::to_exact(v))
+                        })
+                        .collect();
+                    let total = pairs.len();
+                    pairs.sort();
+                    pairs.dedup();
+                    if pairs.len() == total {
+                        if ch.get(4).map(|c| c % 2 == 0).unwrap_or(false) {
+                            let s0 = salts[0].clone();
+                            for s in salts.iter_mut() {
+                                *s = s0.clone();
+                            }
+                        } else {
+                            let i = (ch.get(5).copied().unwrap_or(0) as usize * salts.len()) >> 16;
+                            let j = (ch.get(6).copied().unwrap_or(0) as usize * salts.len()) >> 16;
+                            salts[j] = salts[i].clone();
+                        }
+                    }
                 }
             }
             let selection = selection_for(&issue, &ch, SelOpts { allow_null: false });
